@@ -177,9 +177,9 @@ def float_strings(case):
     if case["op"] == "run":
         decls = list(all_decls(case["root"]))
         argv = case["argv"]
-    elif case["op"] in ("compile", "match", "sentence"):
+    elif case["op"] in ("compile", "match", "sentence", "views"):
         decls = case["decls"]
-        argv = case.get("args", []) + case.get("argv", [])
+        argv = case.get("args", []) + case.get("argv", []) + [t for a in case.get("argvs", []) for t in a]
     else:
         return set()
     fd = [d for d in decls if d["kind"] in ("float", "floats")]
@@ -219,6 +219,8 @@ def model_line(case, floats):
         t = case.get("target")
         body = ["sentence", [fl, env, [sx_decl(d) for d in case["decls"]], case["spec"], case["argv"],
                              [] if t is None else ["t"] + [[k, vs] for k, vs in t]]]
+    elif op == "views":
+        body = ["views", [fl, env, [sx_decl(d) for d in case["decls"]], case["spec"], case["argvs"]]]
     else:
         raise ValueError(op)
     return "%s\t%s\n" % (case["id"], sx(body))
